@@ -82,6 +82,7 @@ class Assertion:
         self.shape = shape            # 'plain' | 'block' | 'nested' | 'twin'
         self.proof = None             # text after $= for lemmas
         self.twin = None              # for shape 'twin': the sibling Assertion sharing the outer block
+        self.gdvs = []                # $d inherited from top-level $d statements (not rendered in the block)
         vs = []
         for _, h in self.hyps:
             t_vars(h, vs)
@@ -131,6 +132,9 @@ class Theory:
                 out.append(s)
         return out
 
+    def gdvs_for(self, vars_):
+        return [p for p in self.global_dvs if p[0] in vars_ and p[1] in vars_]
+
     def by_label(self, label):
         for a in list(self.rules.values()) + self.axioms + self.lemmas:
             if a.label == label:
@@ -178,7 +182,7 @@ def gen_theory(rng, profile='c16'):
         th.pvars = ['ph0', 'ph1', 'ph2'] + [f'th{i}' for i in range(nv - 3)]
     else:
         th.pvars = ['ph0', 'ph1', 'ph2'] + [f'ptn{i}' for i in range(nv - 3)]
-    if c17 and rng.random() < 0.7:
+    if c17 and rng.random() < 0.8:
         th.evars = ['x', 'y', 'z'][:rng.randint(1, 3)]
         th.features.add('element_vars')
     # $f order
@@ -325,7 +329,7 @@ def gen_theory(rng, profile='c16'):
         if shape == 'twin':
             c2 = rand_term(rng, th, vs, 2, binders=c17)
             tw = Assertion(f'rule-{i}b', c2, hyps[:1] + [(f'rule-{i}b.0', rand_term(rng, th, vs, 1, binders=c17))], shape='twin')
-            tw.dvs = list(ax.dvs)
+            tw.dvs = [p for p in ax.dvs if p[0] in tw.vars and p[1] in tw.vars]
             ax.twin = tw
             th.features.add('twin_blocks')
         if shape == 'nested':
@@ -341,9 +345,16 @@ def gen_theory(rng, profile='c16'):
         th.features.add('rule_with_hyps')
     if c17 and th.evars and rng.random() < 0.4:
         vs = [rng.choice(th.evars), rng.choice(th.pvars)]
-        th.global_dvs.append(tuple(vs))
-        th.items.insert(2 + len(th.f_order), ('d', tuple(vs)))
-        th.features.add('global_dv')
+        # a top-level $d constrains every later assertion that mentions both variables; keep the syntax
+        # axioms free of it
+        if not any(vs[0] in ps and vs[1] in ps for _, ps in th.ctors.values()):
+            th.global_dvs.append(tuple(vs))
+            th.items.insert(2, ('d', tuple(vs)))
+            th.features.add('global_dv')
+            for ax in th.axioms:
+                for x in (ax, ax.twin):
+                    if x is not None:
+                        x.gdvs = th.gdvs_for(x.vars)
     # interleave some $f later in the file (as the shipped slices do), keeping relative order
     if rng.random() < 0.3:
         fs = [it for it in th.items if it[0] == 'f']
@@ -376,7 +387,7 @@ def _notation_body(rng, th, params):
 
 
 def _add_dvs(rng, th, ax, c17):
-    if not c17 or not th.evars or rng.random() < 0.5:
+    if not c17 or not th.evars or rng.random() < 0.3:
         return
     vs = ax.vars
     ev = [v for v in vs if v in th.evars]
@@ -579,7 +590,7 @@ class Deriver:
         dv = set()
         for f in hyp_facts:
             dv |= f.dv
-        for x, y in ax.dvs:
+        for x, y in list(ax.dvs) + list(ax.gdvs):
             for s in t_vars(sigma[x]):
                 for u in t_vars(sigma[y]):
                     if s == u:
@@ -1024,3 +1035,76 @@ def decode_case(rng, conventional=True):
     return {'text': text, 'target': label, 'mand': mand, 'listed': listed, 'steps': steps, 'nvars': m,
             'f_order': [flab[v] for v in order], 'zmode': zmode, 'style': style, 'conventional': conventional,
             'f_sorted': mand == sorted(mand)}
+
+
+# ------------------------------------------------------------------- C17: databases with several lemmas
+def make_c17_case(rng, nlemmas=None, style=None):
+    """A database with nested blocks, $d, essential hypotheses and several dependent lemmas with compressed
+    proofs; the whole database is verified by O6(b) before it is returned."""
+    th = gen_theory(rng, 'c17')
+    pr = Prover(th)
+    pool = list(th.axioms)
+    nl = nlemmas or rng.randint(2, 7)
+    feats = set()
+    for i in range(nl):
+        nv = min(rng.choice([0, 1, 2, 2, 3]), len(th.pvars))
+        V = rng.sample(th.pvars, nv)
+        E = rng.sample(th.evars, rng.randint(0, len(th.evars))) if th.evars else []
+        label = f'lemma-{i}' if i < nl - 1 or rng.random() < 0.5 else 'goal'
+        dv = Deriver(rng, th, pr, V, E, pool=pool)
+        hyps = []
+        if rng.random() < 0.45 and (V or th.consts):
+            for j in range(rng.randint(1, 2)):
+                h = dv.term(rng.randint(0, 2))
+                if rng.random() < 0.5:
+                    h = imp(dv.term(1), h)
+                if h in dv.index:
+                    continue
+                hl = f'{label}.{j}'
+                hyps.append((hl, h))
+                dv.add(Fact(h, (hl, ()), frozenset(), 0), 'hyp')
+        dv.run(rng.choice([2, 4, 8, 14]) + len(hyps))
+        cands = [f for f in dv.facts if f.depth >= 1 and tree_size(f.tree) <= 1500]
+        if not cands:
+            continue
+        tgt = max(cands, key=lambda f: (f.depth, tree_size(f.tree))) if rng.random() < 0.7 else rng.choice(cands)
+        flat = flatten(tgt.tree)
+        used_h = [(l, h) for l, h in hyps if l in flat or rng.random() < 0.5]
+        gl = {frozenset(p) for p in th.global_dvs}
+        pairs = sorted(tuple(sorted(p)) for p in tgt.dv if p not in gl or rng.random() < 0.3)
+        lem = Assertion(label, tgt.term, used_h, dvs=pairs, kind='p')
+        lem.shape = 'plain' if not used_h and not pairs and rng.random() < 0.7 else 'block'
+        mvars = sorted(lem.vars, key=th.f_index)
+        mand = [th.f_label[v] for v in mvars] + [l for l, _ in used_h]
+        lay = rng.choice(LAYOUTS)
+        listed, steps = compress(tgt.tree, mand, rng, lay)
+        lem.proof = proof_text(rng, listed, steps, 'canonical')
+        th.lemmas.append(lem)
+        th.items.append(('lemma', lem))
+        # as an assertion for later lemmas: only the $d between mandatory variables are inherited
+        use = Assertion(label, tgt.term, used_h, dvs=[p for p in pairs if p[0] in lem.vars and p[1] in lem.vars], kind='p')
+        use.gdvs = th.gdvs_for(use.vars)
+        pool.append(use)
+        if used_h: feats.add('lemma_with_hyps')
+        if pairs: feats.add('lemma_with_dv')
+        if 'Z' in steps: feats.add('lemma_with_Z')
+        f = proof_features(th, flat)
+        feats |= {x for x in f if x in ('uses_lemma', 'uses_rule_with_hyps', 'uses_notation')}
+        for a in th.axioms:
+            for x in (a, a.twin):
+                if x is not None and x.label in flat:
+                    if a.shape == 'twin':
+                        feats.add('uses_twin_first' if x is a else 'uses_twin_second')
+                    if a.shape == 'nested':
+                        feats.add('uses_nested_rule')
+                    if x.dvs:
+                        feats.add('uses_dv_axiom')
+    if not th.lemmas:
+        return None
+    style = style or ('canonical' if rng.random() < 0.6 else 'wild')
+    text = render(theory_stmts(th), rng, style)
+    db, err = mm.verify_text(text, strict=True)
+    if err is not None or any(v is not None for v in db.results.values()):
+        raise AssertionError(f'G6(C17) produced a database that O6(b) rejects: {err}\n{text}')
+    return {'text': text, 'lemmas': [l.label for l in th.lemmas], 'features': sorted(set(th.features) | feats),
+            'f_labels': [th.f_label[v] for v in th.f_order], 'theory': th}
